@@ -73,3 +73,57 @@ def drift(workdir, behs, maxw, unit):
                 if len(samples) < 5:
                     samples.append(dict(id=b["id"], text=b["text"], w=w, model=b["pred"][str(w)], real=r["real"][w]))
     return dict(comparisons=n, drift=d, env_gap=env_gap, samples=samples), inp
+
+
+CHAIN_CFG = ("SPECIFICATION Spec\nCONSTANTS MaxLen = %d\n MaxOps = %d\n MaxCmt = %d\n MaxW = %d\n Unit = %d\n GenOn = %s\n"
+             "INVARIANTS %s\nCHECK_DEADLOCK FALSE\n")
+CHAIN_INVS = "InvTermination InvConservation InvNoDoubleBlank InvIndentUnit InvHygiene"
+
+
+def concretise_events(seq):
+    parts = []
+    for ev in seq:
+        e = ev["e"]
+        if e in ("item", "opd", "op", "bc", "lc", "txt", "code"):
+            parts.append(ev["txt"])
+        elif e == "comma":
+            parts.append(",")
+        elif e == "sp":
+            parts.append(" ")
+        elif e == "nl":
+            parts.append("\n" * ev["n"])
+        elif e == "par":
+            parts.append("\n" * ev["n"])
+    return "".join(parts)
+
+
+def chain_behaviours(workdir, maxlen, maxops=3, maxcmt=2, maxw=30, unit=2, gen=True, workers=8, timeout=1500):
+    cfg = CHAIN_CFG % (maxlen, maxops, maxcmt, maxw, unit, "TRUE" if gen else "FALSE", CHAIN_INVS + (" Gen" if gen else ""))
+    r = C.model_check("ChainMC", cfg, workdir, workers=workers, xmx="8g", timeout=timeout)
+    behs = []
+    if gen:
+        for g in C.parse_tlc_tuple_lines(r["out"], "GEN"):
+            j = json.loads(C.unquote_tla_string(g))
+            j["text"] = "#(" + concretise_events(j["seq"]) + ", z9)\n"
+            j["id"] = "beh:chain:%s" % hashlib.sha256(j["text"].encode()).hexdigest()[:12]
+            behs.append(j)
+    return r, behs
+
+
+MARKUP_CFG = ("SPECIFICATION Spec\nCONSTANTS MaxLen = %d\n MaxCmt = %d\n MaxW = %d\n Unit = %d\n GenOn = %s\n"
+              "INVARIANTS %s\nCHECK_DEADLOCK FALSE\n")
+MARKUP_INVS = "InvTermination InvConservation InvHygiene InvIndentUnit InvProseLines"
+
+
+def markup_behaviours(workdir, maxlen, maxcmt=2, maxw=20, unit=2, gen=True, workers=8, timeout=1500):
+    cfg = MARKUP_CFG % (maxlen, maxcmt, maxw, unit, "TRUE" if gen else "FALSE", MARKUP_INVS + (" Gen" if gen else ""))
+    r = C.model_check("MarkupMC", cfg, workdir, workers=workers, xmx="8g", timeout=timeout)
+    behs = []
+    if gen:
+        for g in C.parse_tlc_tuple_lines(r["out"], "GEN"):
+            j = json.loads(C.unquote_tla_string(g))
+            body = "".join(("#" + ev["txt"]) if ev["e"] == "code" else concretise_events([ev]) for ev in j["seq"])
+            j["text"] = "#f[" + body + "]\n"
+            j["id"] = "beh:markup:%s" % hashlib.sha256(j["text"].encode()).hexdigest()[:12]
+            behs.append(j)
+    return r, behs
